@@ -43,6 +43,10 @@ struct Spec {
   // return "" to accept it (never the default)
   std::function<std::string(const Case &, const CaseResult &)> on_death;
   int alarm_s = 30;
+  // build() already kept only the cases of this shard (index mod nshards == shard), counting all of them in presharded_total:
+  // a thorough grid has millions of cases and every shard would otherwise hold the whole list (gigabytes per process)
+  bool presharded = false;
+  size_t presharded_total = 0;
 };
 
 inline int main_loop(int argc, char **argv, Spec &sp) {
@@ -72,23 +76,30 @@ inline int main_loop(int argc, char **argv, Spec &sp) {
   std::vector<Case> all;
   size_t total = 0;
   if (sp.lazy_get) total = sp.lazy_count(a);
-  else { sp.build(a, all); total = all.size(); }
+  else { sp.build(a, all); total = sp.presharded ? sp.presharded_total : all.size(); }
   int shard = (int)a.num("shard", 0), nshards = (int)a.num("nshards", 1);
   std::vector<size_t> mine_idx;
-  for (size_t i = 0; i < total; i++)
-    if ((long)(i % nshards) == shard) mine_idx.push_back(i);
+  if (sp.presharded) { for (size_t i = 0; i < all.size(); i++) mine_idx.push_back(i); }
+  else
+    for (size_t i = 0; i < total; i++)
+      if ((long)(i % nshards) == shard) mine_idx.push_back(i);
   auto getcase = [&](long k) -> Case { return sp.lazy_get ? sp.lazy_get(mine_idx[k]) : all[mine_idx[k]]; };
   struct MineView { std::vector<size_t> *v; size_t size() const { return v->size(); } } mine{&mine_idx};
   std::set<std::string> classes;
   std::map<std::string, long> outcomes;
   std::map<std::string, int> reported;
-  long evals = 0, nviol = 0;
+  long evals = 0, nviol = 0, machinery_failures = 0;
   size_t sample_every = mine.size() / 3 + 1;
   auto sink = [&](long k, const CaseResult &cr) {
     Case c = getcase(k);
     long sub = 1;
     classes.insert(c.cls);
     std::string v;
+    if (cr.died && !cr.sig && cr.exitcode >= 93 && cr.exitcode <= 99) { // a limit or internal error of the scheduler/harness itself (too many threads, mutexes, points, pipe failure): never a verdict
+      machinery_failures++;
+      if (machinery_failures <= 3) J().s("t", "info").s("machinery_failure", "exit " + std::to_string(cr.exitcode) + " in case " + c.id()).emit();
+      return;
+    }
     if (cr.died) v = sp.on_death ? sp.on_death(c, cr) : ("abnormal:" + describe_death(cr) + "|case ended abnormally: " + describe_death(cr));
     else v = cr.obs;
     if (!v.empty() && v[0] == '#') { size_t e = v.find('#', 1); sub = atol(v.c_str() + 1); v = e == std::string::npos ? "" : v.substr(e + 1); } // "#n#rest": n evaluations inside this case
@@ -111,6 +122,7 @@ inline int main_loop(int argc, char **argv, Spec &sp) {
   bool capped = (size_t)(evals ? 1 : 0) && outcomes.size() && [&] { long seen = 0; for (auto &o : outcomes) seen += o.second; return seen < (long)mine.size(); }();
   std::vector<std::string> cl(classes.begin(), classes.end());
   J().s("t", "cov").n("evaluations", evals).n("cases_total", (long)total).n("violating_cases", nviol).n("stopped_after_repeated_hangs", capped ? 1 : 0).emit();
+  J().s("t", "flag").s("name", "machinery_ok").bo("value", machinery_failures == 0).emit();
   J().s("t", "set").s("name", "classes").raw("items", jarrs(cl)).emit();
   J().s("t", "hist").s("name", "outcomes").raw("counts", jmap(outcomes)).emit();
   return 0;
